@@ -76,9 +76,10 @@ type histOpts struct {
 	kindsOnly  []string // restrict unit kinds
 	seq        []string // exact unit kinds, in order
 	bigOffsets bool
+	colCases   []int // restrict column types (genColumnCase cases)
 }
 
-var allUnitKinds = []string{"txXid", "txCommit", "txRollback", "ddl", "autoRows", "stmtDml", "rotation", "ignorable", "unknownStmt", "setStmt", "emptyTx"}
+var allUnitKinds = []string{"txXid", "txCommit", "txRollback", "ddl", "autoRows", "stmtDml", "rotation", "restart", "ignorable", "unknownStmt", "setStmt", "emptyTx"}
 
 // genHistory draws a history from the RBR grammar.
 func genHistory(r *vh.Rng, cfg Cfg, o histOpts) *history {
@@ -86,6 +87,9 @@ func genHistory(r *vh.Rng, cfg Cfg, o histOpts) *history {
 	ntab := 1 + r.Intn(3)
 	for i := 0; i < ntab; i++ {
 		t := genTable(r, 1+r.Intn(o.maxCols), cfg)
+		if o.colCases != nil {
+			t = genTableOf(r, 1+r.Intn(o.maxCols), cfg, o.colCases)
+		}
 		t.db, t.name = fmt.Sprintf("db%d", i%2), fmt.Sprintf("tab%d", i)
 		t.id = uint64(100 + i)
 		h.tables = append(h.tables, t)
@@ -183,7 +187,7 @@ func genHistory(r *vh.Rng, cfg Cfg, o histOpts) *history {
 		if o.seq != nil {
 			k = o.seq[u]
 		}
-		if k == "rotation" && !o.rotations && o.seq == nil {
+		if (k == "rotation" || k == "restart") && !o.rotations && o.seq == nil {
 			k = "ddl"
 		}
 		if k == "ignorable" && !o.ignorables && o.seq == nil {
@@ -250,10 +254,15 @@ func genHistory(r *vh.Rng, cfg Cfg, o histOpts) *history {
 			add("rows", rd.bodyVal(*t), t, &rd)
 			ex = append(ex, expEvent{typ: []int{4, 5, 6}[kind], db: t.db, table: t.name, ts: h.events[len(h.events)-1].ts, ids: rd.before, vals: rd.after, tbl: t})
 			commitTx(k, ex, false, nowFile, now)
-		case "rotation":
+		case "rotation", "restart":
 			fileNo++
 			nf := fmt.Sprintf("bin.%06d", fileNo)
-			add("rotate", vh.L(vh.A("rotate"), vh.I(4), vh.X([]byte(nf))), nil, nil)
+			if k == "rotation" {
+				add("rotate", vh.L(vh.A("rotate"), vh.I(4), vh.X([]byte(nf))), nil, nil)
+			} else {
+				// server restart: the old file ends with a STOP_EVENT; the switch is announced by the artificial rotate alone
+				add("raw", vh.L(vh.A("raw"), vh.I(3), vh.X(nil)), nil, nil)
+			}
 			file = nf
 			h.files = append(h.files, nf)
 			off = uint32(120 + r.Intn(20))
